@@ -18,6 +18,12 @@ CLAIMED = {
          "is never overrun (worst case 89 bytes, computed on the table as compiled) and the header is <= 128 bytes; c07_random_mac. "
          "Every dump routine is run on every buffer size 0..len+2 in exactly sized heap blocks under ASan.",
          "Rocq frame-rule proofs over a checked-write memory model; exhaustive buffer-size sweeps under ASan"),
+ "C04": ("Theorems c04_bss_exact / c04_sta_exact / c04_reason_exact: on EVERY classified frame each of the nine parsers returns exactly the "
+         "Spec (addresses, SSID bytes and hidden flag, channel of the last DS/HT element, byte-exact tag copy, zero elsewhere) with all reads "
+         "inside its own copies; c04_other_subtype_refused; c04_flag_independent; six round-trip theorems: for all generator arguments and any "
+         "neutral appended tags, classifying and parsing the generator's byte layout returns the arguments. All nine parsers are run on "
+         "generator-layout, crafted, truncated and radiotap/FCS-wrapped frames and compared field by field.",
+         "Rocq refinement + round-trip proofs; differential correspondence"),
  "C05": ("Theorems c05_inv (every history of any length keeps the stored bytes a well-formed element sequence with the recorded length), "
          "c05_step_refines (add/remove/set/check agree with the reference list whenever the property constrains them), c05_enc_injective; "
          "the model of tag.c is run against the library on breadth-first histories (state-deduplicated) and long random histories, "
@@ -28,6 +34,12 @@ CLAIMED = {
          "order, maximality, prefix-completeness, first-element refusal and a report bound on the Spec; iterator fields after every step "
          "are compared with the library on exhaustive length-skeleton buffers and random buffers.",
          "Rocq refinement proof over a read-oracle model; differential correspondence"),
+ "C08": ("Theorems c08_tables (the six selector->flag switches read from the source equal the documented tables for ALL selectors), "
+         "c08_constants, c08_flags_exact, c08_rsn_decode_exact / c08_wpa_decode_exact (decoded fields equal the element bytes, elements too "
+         "short for their counts are refused, every read inside the element), c08_bss_exact (the four BSS parsers report exactly the "
+         "Spec's summary incl. the WEP and WPS rules). Compared with the library on every single-suite element (256 selectors x kinds x "
+         "lists x OUIs), count/suite mismatches, truncation at every byte and random combinations.",
+         "Rocq refinement proofs + 256-selector table sweeps over translator-regenerated switch tables"),
  "C11": ("Theorems c11_crc_exact (the C loop with constants re-read from the source computes the IEEE 802.3 32-stage division "
          "register, for every message and every in-bounds read oracle), c11_tbl_equiv (an independent table-driven CRC derived from G), "
          "c11_fcs_bytes, c11_verify_iff, c11_short_no. Compared with the library and with zlib on exhaustive short strings, the "
@@ -38,6 +50,12 @@ CLAIMED = {
          "exactly the big-endian fields at the standard offsets and the key data limited by declared length, cap and bytes present, with "
          "every body read inside the library's copy. Compared with the library on key-information sweeps and length grids.",
          "Rocq refinement proofs over a read-oracle model; differential correspondence"),
+ "C16": ("Theorem c16_no_writable_state: the list of writable / thread-local / COMMON data and function-local statics of the library's "
+         "objects, re-derived from the current tree on every run (gcc + readelf), is empty; c16_interleaving / "
+         "c16_schedules_indistinguishable: in a multi-thread semantics whose only shared component is that (empty) state, for ALL "
+         "schedules every thread ends with exactly its sequential result. An 8/16-thread generate/parse workload compares per-thread "
+         "digests with the sequential run (under ThreadSanitizer in the thorough tier or when the theorem breaks).",
+         "Rocq commutation theorem over translator-derived global-state list; thread workload (TSan)"),
  "C17": ("Theorem c17_describe_exact: for each of the four description routines and EVERY summary value the model of the routine "
          "(snprintf contract, tables re-read from the source on every run) stays inside the LIBWIFI_SECURITY_BUF_LEN-byte block and leaves "
          "a NUL-terminated string shorter than the buffer that is 'None' or the comma-separated names of exactly the set flags; c17_tables / "
